@@ -348,11 +348,11 @@ def run(ctx):
             ctx.sample({"lattice": [g, maxn], "sorter": cases[k]["sorter"], "boxes": cases[k]["boxes"],
                         "returned": [r["id"] for r in traces[k]["out"]], "outcome": traces[k]["outcome"],
                         "deskew": traces[k]["deskew"]}, limit=6)
-        if first:
+        rejected = {i for i, _ in rej}
+        good = next((i for i in range(len(traces) - 1, -1, -1) if i not in rejected and len(traces[i]["out"]) >= 2
+                     and traces[i]["out"][0]["lines"]), None)
+        if first and good is not None:      # binding self-test on the first lattice that has an accepted trace with payload
             first = False
-            rejected = {i for i, _ in rej}
-            good = next(i for i in range(len(traces) - 1, -1, -1) if i not in rejected and len(traces[i]["out"]) >= 2
-                        and traces[i]["out"][0]["lines"])
 
             def corrupt(tr):
                 tr["out"][1] = copy.deepcopy(tr["out"][0])     # first region returned twice, second one lost
